@@ -140,18 +140,21 @@ structure PPP where
 /-- `&PPP{}`. -/
 def PPP.fresh : PPP := { contents := [], payload := [], pppType := 0, hasPPTPHeader := false }
 
+/-- ppp.go:42 `len(data) >= 2 && data[0] == 0xff && data[1] == 0x03` (short-circuit evaluation:
+    `data[1]` is only read when `data[0] == 0xff`, both only when there are two bytes). -/
+def hasHdr (data : GSlice) : Res Bool :=
+  if data.len ≥ 2 then do
+    let b0 ← data.index 0
+    if b0.toNat = 0xff then do
+      let b1 ← data.index 1
+      pure (decide (b1.toNat = 0x03))
+    else pure false
+  else pure false
+
 /-- ppp.go:39-70 `decodePPP`, statement by statement. -/
 def decodePPP (data : GSlice) : Res (DecOut PPP) := do
   let ppp := PPP.fresh                                              -- ppp := &PPP{}
-  -- offset := 0; if len(data) >= 2 && data[0] == 0xff && data[1] == 0x03 { … }
-  let hdr ←
-    if data.len ≥ 2 then do
-      let b0 ← data.index 0
-      if b0.toNat = 0xff then do
-        let b1 ← data.index 1
-        pure (decide (b1.toNat = 0x03))
-      else pure false
-    else pure false
+  let hdr ← hasHdr data                                             -- offset := 0; if len(data) >= 2 && … {
   let offset := if hdr then 2 else 0                                -- offset = 2
   let ppp := if hdr then { ppp with hasPPTPHeader := true } else ppp  -- ppp.HasPPTPHeader = true
   if data.len < offset + 1 then pure (DecOut.failed [])            -- "PPP packet too small"
@@ -346,9 +349,13 @@ def run : Nat → Dec → GSlice → RunOut → Res RunOut
           | .ok none => .ok { acc with end_ := .fail }
           | .ok (some d) => run fuel d s.rest acc
 
-/-- `gopacket.NewPacket(data, LayerTypeX, …)` seen through this engine's layers. -/
-def newPacket (first : Dec) (data : GSlice) : Res RunOut :=
-  run (data.len + 1) first data { layers := [], acts := [], end_ := .done }
+/-- `gopacket.NewPacket(data, LayerTypeX, …).Layers()` seen through this engine's layers.  An eager
+    packet calls the first decoder unconditionally (packet.go initialDecode); a lazy packet never
+    calls a decoder on empty data (decodeNextLayer: `if len(d) == 0 { return }`), so lazy decoding of
+    the empty input yields no layers and no error (C03 excludes the empty input for this reason). -/
+def newPacket (lazy : Bool) (first : Dec) (data : GSlice) : Res RunOut :=
+  if lazy ∧ data.len = 0 then .ok { layers := [], acts := [], end_ := .done }
+  else run (data.len + 1) first data { layers := [], acts := [], end_ := .done }
 
 /-! ## LinkFlow (ppp.go:31,37 over flows.go NewFlow / Reverse) -/
 
